@@ -976,3 +976,205 @@ pub fn negotiate(connect: &ConnectOptions, connack: &VConnack, existing_client_i
 pub fn passes_offline_policy(packet: &Pkt, policy: OfflineQueuePolicy) -> Result<bool, ErrKind> {
     Ok(crate::protocol::verif_protocol::passes_offline_policy(&pkt_in(packet)?, &policy))
 }
+
+// ------------------------------------------------------------------------------------------------
+// ClientImpl: the driver-independent client state machine (MqttClientImpl) behind neutral types.
+// It reads the clock itself (Instant::now()); a harness that wants virtual time interposes the
+// clock at link level.  Client events are captured synchronously, in emission order.
+// ------------------------------------------------------------------------------------------------
+
+pub use crate::client::verif_client::ClientView;
+
+#[derive(Clone, Debug, PartialEq, Eq, Hash)]
+pub enum EventView {
+    Attempt,
+    Success { connack: VConnack, settings: VSettings },
+    Failure { error: ErrKind, connack: Option<VConnack> },
+    Disconnection { error: ErrKind, disconnect: Option<VDisconnect> },
+    Stopped,
+    PublishReceived(VPublish),
+}
+
+#[derive(Clone, Debug)]
+pub enum ClientOp {
+    Start,
+    Stop(Option<VDisconnect>),
+    Close,
+    Submit { tag: u32, packet: Pkt, ack_timeout: Option<Duration> },
+}
+
+pub struct ClientImpl {
+    inner: MqttClientImpl,
+    events: Arc<Mutex<Vec<EventView>>>,
+    completions: Arc<Mutex<Vec<Completion>>>,
+}
+
+fn event_view(event: &ClientEvent) -> EventView {
+    match event {
+        ClientEvent::ConnectionAttempt(_) => EventView::Attempt,
+        ClientEvent::ConnectionSuccess(success) => EventView::Success { connack: connack_out(&success.connack), settings: settings_view(&success.settings) },
+        ClientEvent::ConnectionFailure(failure) => EventView::Failure { error: err_kind(&failure.error), connack: failure.connack.as_ref().map(connack_out) },
+        ClientEvent::Disconnection(disconnection) => EventView::Disconnection { error: err_kind(&disconnection.error), disconnect: disconnection.disconnect.as_ref().map(disconnect_out) },
+        ClientEvent::Stopped(_) => EventView::Stopped,
+        ClientEvent::PublishReceived(received) => EventView::PublishReceived(publish_out(&received.publish)),
+    }
+}
+
+impl ClientImpl {
+    pub fn new(client_options: MqttClientOptions, connect_options: ConnectOptions) -> ClientImpl {
+        // events are delivered synchronously instead of being spawned onto a runtime/thread
+        let callback_spawner: CallbackSpawnerFunction = Box::new(|event, callback| { (callback)(event) });
+        ClientImpl {
+            inner: MqttClientImpl::new(client_options, connect_options, callback_spawner),
+            events: Arc::new(Mutex::new(Vec::new())),
+            completions: Arc::new(Mutex::new(Vec::new())),
+        }
+    }
+
+    /// `handle_incoming_operation` with the operation the public handles would have built.
+    pub fn op(&mut self, op: ClientOp) -> Result<(), ErrKind> {
+        let operation =
+            match op {
+                ClientOp::Start => {
+                    let events = self.events.clone();
+                    let listener: ClientEventListener = Arc::new(move |event: Arc<ClientEvent>| { events.lock().unwrap().push(event_view(&event)); });
+                    OperationOptions::Start(Some(listener))
+                }
+                ClientOp::Stop(disconnect) => {
+                    let disconnect = match disconnect { None => None, Some(packet) => Some(Box::new(MqttPacket::Disconnect(disconnect_in(&packet)?))) };
+                    OperationOptions::Stop(StopOptionsInternal { disconnect })
+                }
+                ClientOp::Close => OperationOptions::Shutdown(),
+                ClientOp::Submit { tag, packet, ack_timeout } => {
+                    let mqtt_packet = Box::new(pkt_in(&packet)?);
+                    let log = self.completions.clone();
+                    match &*mqtt_packet {
+                        MqttPacket::Publish(_) => {
+                            let mut builder = PublishOptions::builder();
+                            if let Some(timeout) = ack_timeout { builder = builder.with_ack_timeout(timeout); }
+                            let handler: ResponseHandler<PublishResult> = Box::new(move |result: PublishResult| {
+                                log.lock().unwrap().push(Completion { tag, result: match result { Ok(response) => Ok(ack_of_publish_response(response)), Err(error) => Err(err_kind(&error)) } });
+                                Ok(())
+                            });
+                            OperationOptions::Publish(mqtt_packet, PublishOptionsInternal { options: builder.build(), response_handler: Some(handler) })
+                        }
+                        MqttPacket::Subscribe(_) => {
+                            let mut builder = SubscribeOptions::builder();
+                            if let Some(timeout) = ack_timeout { builder = builder.with_ack_timeout(timeout); }
+                            let handler: ResponseHandler<SubscribeResult> = Box::new(move |result: SubscribeResult| {
+                                log.lock().unwrap().push(Completion { tag, result: match result { Ok(suback) => Ok(AckV::Suback(suback_out(&suback))), Err(error) => Err(err_kind(&error)) } });
+                                Ok(())
+                            });
+                            OperationOptions::Subscribe(mqtt_packet, SubscribeOptionsInternal { options: builder.build(), response_handler: Some(handler) })
+                        }
+                        MqttPacket::Unsubscribe(_) => {
+                            let mut builder = UnsubscribeOptions::builder();
+                            if let Some(timeout) = ack_timeout { builder = builder.with_ack_timeout(timeout); }
+                            let handler: ResponseHandler<UnsubscribeResult> = Box::new(move |result: UnsubscribeResult| {
+                                log.lock().unwrap().push(Completion { tag, result: match result { Ok(unsuback) => Ok(AckV::Unsuback(unsuback_out(&unsuback))), Err(error) => Err(err_kind(&error)) } });
+                                Ok(())
+                            });
+                            OperationOptions::Unsubscribe(mqtt_packet, UnsubscribeOptionsInternal { options: builder.build(), response_handler: Some(handler) })
+                        }
+                        _ => { return Err(ErrKind::Unrepresentable); }
+                    }
+                }
+            };
+
+        self.inner.handle_incoming_operation(operation);
+        Ok(())
+    }
+
+    /// 0 Stopped, 1 Connecting, 2 Connected, 3 PendingReconnect, 4 Shutdown
+    pub fn optional_transition(&self) -> Option<u8> {
+        self.inner.compute_optional_state_transition().map(crate::client::verif_client::client_state_code)
+    }
+
+    pub fn transition(&mut self, to: u8) -> Result<(), ErrKind> {
+        self.inner.transition_to_state(crate::client::verif_client::client_state_from_code(to)).map_err(|e| err_kind(&e))
+    }
+
+    pub fn advance_reconnect_period(&mut self) -> Duration {
+        self.inner.advance_reconnect_period()
+    }
+
+    pub fn incoming_bytes(&mut self, bytes: &[u8]) -> Result<(), ErrKind> {
+        self.inner.handle_incoming_bytes(bytes).map_err(|e| err_kind(&e))
+    }
+
+    pub fn service(&mut self, outbound: &mut Vec<u8>) -> Result<(), ErrKind> {
+        self.inner.handle_service(outbound).map_err(|e| err_kind(&e))
+    }
+
+    pub fn write_completion(&mut self) -> Result<(), ErrKind> {
+        self.inner.handle_write_completion().map_err(|e| err_kind(&e))
+    }
+
+    pub fn next_connected_service_time(&mut self) -> Option<Instant> {
+        self.inner.get_next_connected_service_time()
+    }
+
+    /// `apply_error` with the error the event loops build for a transport failure:
+    /// connection-closed when the MQTT connection was established, establishment failure otherwise
+    /// (`established == None` lets this function decide exactly like the loops do).
+    pub fn apply_transport_error(&mut self, established: Option<bool>, message: &str) {
+        let established = established.unwrap_or(is_connection_established(self.inner.get_protocol_state()));
+        if established {
+            self.inner.apply_error(GneissError::new_connection_closed(message.to_string()));
+        } else {
+            self.inner.apply_error(GneissError::new_connection_establishment_failure(message.to_string()));
+        }
+    }
+
+    /// `apply_error` with the error value an engine entry point returned (re-created by kind).
+    pub fn apply_engine_error(&mut self, kind: ErrKind) {
+        let error =
+            match kind {
+                ErrKind::ProtocolError => GneissError::new_protocol_error("verif"),
+                ErrKind::DecodingFailure => GneissError::new_decoding_failure("verif"),
+                ErrKind::EncodingFailure => GneissError::new_encoding_failure("verif"),
+                ErrKind::InternalStateError => GneissError::new_internal_state_error("verif"),
+                ErrKind::ConnectionEstablishmentFailure => GneissError::new_connection_establishment_failure("verif"),
+                ErrKind::UserInitiatedDisconnect => GneissError::new_user_initiated_disconnect(),
+                ErrKind::InvalidInboundTopicAlias => GneissError::new_inbound_topic_alias_not_valid("verif"),
+                ErrKind::Unimplemented => GneissError::new_unimplemented("verif"),
+                _ => GneissError::new_connection_closed("verif"),
+            };
+        self.inner.apply_error(error);
+    }
+
+    pub fn connect_timeout(&self) -> Duration {
+        *self.inner.connect_timeout()
+    }
+
+    pub fn state(&self) -> u8 {
+        crate::client::verif_client::client_state_code(self.inner.get_current_state())
+    }
+
+    /// 0 Disconnected, 1 PendingConnack, 2 Connected, 3 PendingDisconnect, 4 Halted
+    pub fn engine_state(&self) -> u8 {
+        crate::protocol::verif_protocol::state_of(crate::client::verif_client::protocol_state_of(&self.inner))
+    }
+
+    pub fn view(&self) -> ClientView {
+        crate::client::verif_client::client_view(&self.inner)
+    }
+
+    pub fn engine_snapshot(&self) -> Snapshot {
+        crate::protocol::verif_protocol::snapshot(crate::client::verif_client::protocol_state_of(&self.inner), &Instant::now())
+    }
+
+    pub fn take_events(&mut self) -> Vec<EventView> {
+        std::mem::take(&mut *self.events.lock().unwrap())
+    }
+
+    pub fn take_completions(&mut self) -> Vec<Completion> {
+        std::mem::take(&mut *self.completions.lock().unwrap())
+    }
+}
+
+/// The threaded client's private WebSocket -> byte stream adapter.
+#[cfg(feature = "threaded-websockets")]
+pub fn ws_wrap<T>(websocket: tungstenite::WebSocket<T>) -> impl std::io::Read + std::io::Write where T: std::io::Read + std::io::Write {
+    crate::client::synchronous::threaded::verif_ws_wrap(websocket)
+}
